@@ -1,6 +1,8 @@
 package keeper
 
 import (
+	"bytes"
+
 	sdk "github.com/cosmos/cosmos-sdk/types"
 	"github.com/goatnetwork/goat/x/relayer/types"
 	"github.com/goatnetwork/goat/zzverif/vrt"
@@ -29,3 +31,12 @@ func (m *vhVoteMsg) GetProposer() string   { return m.Proposer }
 func (m *vhVoteMsg) GetVote() *types.Votes { return m.Vote }
 func (m *vhVoteMsg) MethodName() string    { return m.Method }
 func (m *vhVoteMsg) VoteSigDoc() []byte    { return m.Payload }
+
+// vhPick returns the genuine value when the flag is set and otherwise an arbitrary value
+// DIFFERENT from it (a free value cannot be made to hit a real hash output natively; the
+// genuine case is covered by its own branch).
+func vhPick(h *vrt.H, genuine bool, real []byte, name string) []byte {
+	arb := h.Bytes(name, len(real))
+	h.Assume(h.Either(genuine, !bytes.Equal(arb, real)))
+	return h.PickBytes(genuine, real, arb)
+}
